@@ -28,13 +28,13 @@ from harness.core import import_cuqi, quiet
 from harness.props import c01
 
 NAME_POOL = c01.NAME_POOL + ["q", "q2", "ln", "rg", "p1", "p2", "p3", "p4", "c1", "c2", "c3", "mp",
-                             "s9", "q3", "q4", "gs", "gc", "gn", "gb", "gp"]          # ids of variable names on the model side
+                             "s9", "q3", "q4", "gs", "gc", "gn", "gb", "gp", "ym", "xm", "sm"]          # ids of variable names on the model side
 ATTR_KEY_BASE = 100                                            # ids of attribute-named conditioning variables
 FAMS = ["Gaussian", "Normal", "Laplace", "GMRF", "LMRF", "Gamma", "Lognormal", "RegularizedGaussian"]
 
 # benign caches: python attribute names that may be written on a pre-existing object
 BENIGN_ANY = {"_variable_name"}                 # a geometry's label
-BENIGN_FILL = {"_mutable_vars", "_coefs", "_coefs_inverse"}   # lazily cached once (absent/None -> value); must not change afterwards
+BENIGN_FILL = {"_mutable_vars", "_coefs", "_coefs_inverse", "_fun_shape"}   # lazily cached once (absent/None -> value); must not change afterwards
                                                 # (`_coefs*`: KLExpansion's decay coefficients, a function of num_modes/decay_rate)
 
 
@@ -309,6 +309,15 @@ def behaviour(cuqi, o, probes, vals=None, maxprod=0):
         out["name"] = "exc" if isinstance(nm, Exception) else nm
     if L in ("d", "n", "r", "P", "M"):
         out["dim"] = _canon(_try(lambda: o.dim))
+    if L in ("d", "n", "r", "L", "P"):
+        out["fd"] = (_canon(_try(lambda: o.FD_enabled)), _canon(_try(lambda: o.FD_epsilon)))
+    if L == "L":
+        # what a likelihood reports about its forward model (must follow the *current* data distribution)
+        m = _try(lambda: o.model)
+        g = _try(lambda: o.geometry)
+        out["lik"] = ("exc:" + type(m).__name__ if isinstance(m, Exception) else type(m).__name__,
+                      "exc" if isinstance(g, Exception) else (type(g).__name__, str(getattr(g, "par_shape", None))),
+                      _canon(_try(lambda: o.dim)), _canon(_try(lambda: o.par_shape)), _canon(_try(lambda: o.fun_shape)))
     if L in ("d", "n", "r"):
         # geometry class / shapes (a model application must not re-wire the geometry of its argument)
         g = _try(lambda: o.geometry)
@@ -352,7 +361,10 @@ def fresh_compare(o, ref, xs):
         return a.shape == b.shape and bool(np.allclose(a, b, rtol=1e-9, atol=1e-11, equal_nan=True))
     bad = []
     for i, x in enumerate(xs):
+        fd = _try(lambda: o.FD_enabled)
         for nm, f in (("logd", lambda d: d.logd(x)), ("pdf", lambda d: d.pdf(x)), ("gradient", lambda d: d.gradient(x))):
+            if nm == "gradient" and fd is not False:
+                continue          # finite-difference gradients were switched on for this object (a configuration step)
             a, b = _try(lambda: f(o)), _try(lambda: f(ref))
             if not same(a, b):
                 bad.append(f"{nm}@{i}: {_canon(a)[:60]} vs fresh {_canon(b)[:60]}")
@@ -489,10 +501,18 @@ class World:
         a = np.array([rng.randint(-4, 4) / 2.0 for _ in range(dm)])
         self.vals["mp"] = [a, a + 1.0]
 
+        memo_mean = {} if rng.random() < 0.35 else None     # callable returning the SAME array object for the same arguments
+
         def mean_fn(*xs):
             xs = [np.asarray(x, dtype=float).reshape(-1) for x in xs]
+            key = tuple(x.tobytes() for x in xs)
+            if memo_mean is not None and key in memo_mean:
+                return memo_mean[key]
             out = xs[0] + xs[1] * xs[2]
-            return out + M4 @ xs[3] if len(xs) > 3 else out
+            out = out + M4 @ xs[3] if len(xs) > 3 else out
+            if memo_mean is not None:
+                memo_mean[key] = out
+            return out
 
         def cov_val(*cs):
             cs = [float(np.asarray(c).reshape(-1)[0]) for c in cs]
@@ -566,6 +586,38 @@ class World:
                 objs.append(("d", {"fam": "n0", "name": f"n{NAME_POOL.index(lab)}", "geom": f"r{g}",
                                    "s0": (f"f{fid}/{NAME_POOL.index(par)}" if par else "n1"), "s1": "n2"}))
                 self.dense.append(lab)
+        # ---- a hierarchical data model y ~ Gaussian(A x, c / s) with a cuqi forward model: its likelihood has TWO parameters
+        #      (model input and noise hyper-parameter); conditioning on the model input alone keeps it a Likelihood
+        from cuqi.geometry import Continuous1D
+        nx, ny = rng.randint(2, 3), 3
+        Am = c01._imat(rng, ny, nx)
+        lin = rng.random() < 0.6
+        cy = float(rng.choice([0.5, 1.0, 2.0]))
+        with quiet():
+            if lin:
+                Amod = LinearModel(c01._named_lambda(["xm"], lambda x: Am @ np.asarray(x, dtype=float).reshape(-1)),
+                                   lambda y: Am.T @ np.asarray(y, dtype=float).reshape(-1), range_geometry=ny,
+                                   domain_geometry=(Continuous1D(nx) if rng.random() < 0.5 else nx))
+            else:
+                Amod = Model(c01._named_lambda(["xm"], lambda x: Am @ (np.asarray(x, dtype=float).reshape(-1) ** 2)), range_geometry=ny, domain_geometry=nx)
+            self.YM = Gaussian(mean=Amod, cov=lambda sm: cy / float(np.asarray(sm).reshape(-1)[0]), geometry=ny, name="ym")
+            xm = Gaussian(np.zeros(nx), 2.0, geometry=Amod.domain_geometry, name="xm")
+            sm = Gamma(2.0, 1.0, geometry=(Continuous1D(1) if rng.random() < 0.5 else 1), name="sm")
+            self.J3 = JointDistribution(self.YM, xm, sm)
+        self.vals["ym"] = [np.array([rng.randint(-4, 4) / 2.0 for _ in range(ny)]) for _ in range(2)]
+        self.vals["xm"] = [np.array([rng.randint(-3, 3) / 2.0 for _ in range(nx)]), np.array([rng.randint(-3, 3) / 2.0 + 0.25 for _ in range(nx)])]
+        self.vals["sm"] = [np.array([float(v)]) for v in rng.sample([0.5, 1.0, 2.0, 4.0], 2)]
+        for lab, d, slots in (("ym", self.YM, {"s0": f"f97/{NAME_POOL.index('xm')}", "s1": f"f98/{NAME_POOL.index('sm')}"}),
+                              ("xm", xm, {"s0": "n1", "s1": "n2"}), ("sm", sm, {"s0": "n2", "s1": "n1"})):
+            g = len(objs); objs.append(("g", {}))
+            self.addr[lab] = len(objs); self.live[len(objs)] = d
+            objs.append(("d", {"fam": f"n{FAMS.index('Gamma') if lab == 'sm' else 0}", "name": f"n{NAME_POOL.index(lab)}", "geom": f"r{g}", **slots}))
+        self.addr["J3"] = len(objs); self.live[len(objs)] = self.J3
+        objs.append(("J", {"dens": "R" + ".".join(str(self.addr[x]) for x in ("ym", "xm", "sm"))}))
+        self.recipes["ym"] = lambda env: Gaussian(mean=(Am @ np.asarray(env["xm"], dtype=float).reshape(-1) if lin else Am @ (np.asarray(env["xm"], dtype=float).reshape(-1) ** 2)),
+                                                  cov=cy / float(np.asarray(env["sm"]).reshape(-1)[0]), geometry=ny)
+        import copy as _cp
+        self.pristine = _cp.deepcopy(self.live)      # untouched twins of all originals (same sharing structure)
         # ---- which log-densities are ndarrays (decides what `_constant += …` does): observed on the originals
         probe0 = {nm: vv[0] for nm, vv in self.vals.items()}
         for lab, a in self.addr.items():
@@ -612,6 +664,7 @@ class Program:
         self.label_of = {a: lab for lab, a in self.w.addr.items()}
         self.meta = {}          # op index of a derived object -> (root label, values bound so far)
         self.inplace_events = []
+        self.last_ok = {}       # derived object -> last op after which it was found unchanged
         self.fresh_bad = []
         self.length = length if length is not None else rng.randint(6, 40 if thorough else 28)
         self.script = script
@@ -639,14 +692,14 @@ class Program:
             return self.label_of.get(int(ref[1:])), {}
         return self.meta.get(int(ref[1:]), (None, {}))
 
-    def check_pool(self, k):
+    def check_pool(self, k, final=False):
         """siblings / intermediates: derived objects must be what they were when they were returned"""
         if self.sibling_bad is not None or not self.pool:
             return
-        items = self.pool if self.pool_checks is None or len(self.pool) <= self.pool_checks else \
+        items = self.pool if final or self.pool_checks is None or len(self.pool) <= self.pool_checks else \
             random.Random(f"{self.idx}-{k}").sample(self.pool, self.pool_checks)
         for km, o in items:
-            if km == k:
+            if km == k and not final:
                 continue
             s1 = snapshot(o)
             d = snap_equal(self.made[km][0], s1)
@@ -654,15 +707,16 @@ class Program:
             if d or b1 != self.made[km][1]:
                 bd = {kk: (self.made[km][1].get(kk), b1.get(kk)) for kk in b1 if b1.get(kk) != self.made[km][1].get(kk)}
                 import re
-                if d and all(re.fullmatch(r"root(\..+)?\._constant\[3\]", x) for x in d) and 0 <= k < len(self.ops_desc) \
-                        and self.ops_desc[k]["op"] == "cond":
+                if d and all(re.fullmatch(r"root(\..+)?\._constant\[3\]", x) for x in d) and 0 <= k < len(self.ops_desc):
                     # only the BYTES of an ndarray `_constant` changed during a conditioning: candidate for the known
                     # in-place `+=` (confirmed against the model's prediction in judge); re-baseline and go on
-                    self.inplace_events.append((k, km, d[:2], bd))
+                    self.inplace_events.append((k, km, d[:2], bd, self.last_ok.get(km, km)))
                     self.made[km] = (s1, b1)
+                    self.last_ok[km] = k
                     continue
                 self.sibling_bad = (km, d[:3], bd, k)
                 return
+            self.last_ok[km] = k
 
     # -- references
     def targets(self):
@@ -701,11 +755,12 @@ class Program:
         elif L == "P":
             kinds = ["logd"] * 4 + ["grad"] * 2 + ["cond0"] * 2
         elif L == "L":
-            kinds = ["cond"] * 3 + ["logd"] * 3 + ["grad"] * 2 + ["cond0"]
+            kinds = ["cond"] * 3 + ["logd"] * 3 + ["grad"] * 3 + ["cond0", "fd"]
         elif L == "E":
             kinds = ["cond0", "logd"]
         else:
-            kinds = ["cond"] * 4 + ["logd"] * 3 + ["grad", "sample", "sample1", "samplerng", "pdf", "tolik", "tolik", "cond0", "condbad", "mkjoint"]
+            kinds = ["cond"] * 4 + ["logd"] * 3 + ["grad", "grad", "sample", "sample1", "samplerng", "pdf", "tolik", "tolik", "tolik", "cond0",
+                     "condbad", "mkjoint", "fd", "fd"]
         kind = rng.choice(kinds)
         if kind == "cond":
             if not names:
@@ -742,6 +797,10 @@ class Program:
             return (kind, ref, o, kw, txt)
         if kind == "mkjoint":
             return self.mkjoint_for(ref, o)
+        if kind == "fd":
+            # CONFIGURATION step (not an operation of the property): switch the finite-difference gradient option
+            code = rng.choice([1, 1, 2, 3, 0])
+            return ("fd", ref, o, code)
         if kind == "tolik":
             nm = _try(lambda: o.name)
             if isinstance(nm, Exception) or nm not in self.w.vals:
@@ -808,6 +867,8 @@ class Program:
                 elif kind == "mkjoint":
                     from cuqi.distribution import JointDistribution
                     res = JointDistribution(*op[2])
+                elif kind == "fd":
+                    res = op[2].disable_FD() if op[3] == 0 else (op[2].enable_FD() if op[3] == 3 else op[2].enable_FD({1: 1e-3, 2: 1e-6}[op[3]]))
                 elif kind == "tolik":
                     res = op[2].to_likelihood(op[3])
                 elif kind == "apply":
@@ -861,6 +922,8 @@ class Program:
             rec["kind"] = "G"; rec["names"] = [name_id(n) for n in res[1]]; rec["n"] = res[2]
         elif kind in ("logd",):
             rec["kind"] = "v"
+        elif kind == "fd":
+            rec["kind"] = "cfg"
         elif kind in ("grad", "sample", "sample1", "samplerng", "pdf", "cdf"):
             rec["kind"] = "u"
         else:
@@ -919,6 +982,15 @@ class Program:
         self.made = {}          # op index -> (snapshot, behaviour) when returned
         self.first_bad = None   # (op index, label, what, detail)
         self.name_bad = []
+        self.made0 = {}         # behaviour when returned (never re-baselined)
+        self.values = {}        # op index -> canonical value returned by an evaluation
+        self.retained = []      # (op index, returned array object, bytes hash when returned)   [G8]
+        self.retained_bad = None
+        self.caller_bad = None  # caller-owned argument arrays must never be modified                [G2]
+        def _h(a):
+            a = np.asarray(a.samples if hasattr(a, "samples") else a)
+            return hashlib.sha1(np.ascontiguousarray(a).tobytes()).hexdigest() + str(a.shape)
+        caller0 = {nm: [_h(v) for v in vv] for nm, vv in w.vals.items()}
         steps = self.script if self.script is not None else range(self.length)
         for step in steps:
             op = self.choose() if self.script is None else step(self)
@@ -942,13 +1014,33 @@ class Program:
                 self.ops_txt.append(f"g:{op[1]}")
             elif kind == "mkjoint":
                 self.ops_txt.append(f"j:{op[1]}")
+            elif kind == "fd":
+                self.ops_txt.append(f"F:{op[1]}:{op[3]}")
             elif kind == "tolik":
                 self.ops_txt.append(f"t:{op[1]}:{op[4]}")
             elif kind == "apply":
                 self.ops_txt.append(f"a:{op[1]}:{op[3]}")
             elif kind == "gibbs":
                 self.ops_txt.append(f"G:{op[1]}:{op[3]}")
-            self.ops_desc.append({"op": kind, "on": op[1], "args": self.ops_txt[-1], "impl": rec["kind"]})
+            self.ops_desc.append({"op": kind, "on": op[1], "args": self.ops_txt[-1], "impl": rec["kind"],
+                                  "kw": (op[4] if kind in ("grad", "pdf", "cdf") else None)})
+            if kind == "fd":
+                # configuration step: by design it changes the option of its receiver (a likelihood writes through to its
+                # distribution); everything is re-baselined, the following operations must preserve the new state
+                self.snap0 = {lab: snapshot(o) for lab, o in origs}
+                self.beh0 = {lab: self.beh(o) for lab, o in origs}
+                for km, o in self.pool:
+                    self.made[km] = (snapshot(o), self.beh(o, *self.meta.get(km, (None, None))))
+                continue
+            if kind in ("logd", "grad", "pdf"):      # (cdf: scipy's multivariate normal cdf is a randomised integration)
+                self.values[k] = _canon(res)
+            if not isinstance(res, Exception) and (isinstance(res, np.ndarray) or hasattr(res, "samples")) and kind != "gibbs":
+                self.retained.append((k, res, _h(res)))
+            if self.caller_bad is None:
+                now = {nm: [_h(v) for v in vv] for nm, vv in w.vals.items()}
+                if now != caller0:
+                    self.caller_bad = (k, [nm for nm in now if now[nm] != caller0[nm]])
+                    caller0 = now
             # copy keeps name (oracle): the result of conditioning a named density carries the same name
             if kind in ("cond", "tolik") and not isinstance(res, Exception) and letter(cuqi, res) in ("d", "n", "r", "L", "E") \
                     and letter(cuqi, op[2]) in ("d", "n", "r", "L", "E"):
@@ -964,6 +1056,7 @@ class Program:
                     elif kind == "apply":
                         self.meta[k] = (self.meta_of(op[1])[0], {})
                     self.made[k] = (snapshot(res), self.beh(res, *self.meta.get(k, (None, None))))
+                    self.made0[k] = self.made[k][1]
                     if self.made[k][1].get("fresh", "ok") != "ok":
                         self.fresh_bad.append((k, self.meta[k][0], self.made[k][1]["fresh"]))
             if check_every_op and self.first_bad is None:
@@ -975,15 +1068,75 @@ class Program:
         if self.first_bad is None:
             self.check_originals(len(self.ops_txt) - 1, full=True)
         # siblings: every derived object is what it was when it was returned
-        for k, o in self.pool:
-            if self.sibling_bad is not None:
+        self.check_pool(len(self.ops_txt) - 1, final=True)
+        # retained outputs: every array a call returned is still what it was (no internal buffer handed out twice)
+        for k, r, h in self.retained:
+            if _h(r) != h:
+                self.retained_bad = (k,)
                 break
-            s1, b1 = snapshot(o), self.beh(o, *self.meta.get(k, (None, None)))
-            d = snap_equal(self.made[k][0], s1)
-            if d or b1 != self.made[k][1]:
-                self.sibling_bad = (k, d[:3], {kk: (self.made[k][1].get(kk), b1.get(kk)) for kk in b1 if b1.get(kk) != self.made[k][1].get(kk)},
-                                    len(self.ops_txt) - 1)
+        # history independence: an object / value obtained after intervening operations equals the one obtained by the
+        # operations it depends on alone, executed on untouched twins of the originals (no fingerprinting in between)
+        self.history_bad = None
+        if self.script is None and self.history_checks:
+            cand = [k for k in list(self.made) + list(self.values) if len(self.deps(k)) < k + 1]
+            random.Random(f"h{self.idx}").shuffle(cand)
+            for k in cand[:self.history_checks]:
+                bad = self.history_check(k)
+                if bad:
+                    self.history_bad = bad
+                    break
         return self
+
+    history_checks = 2
+
+    def deps(self, k):
+        """ops the result of op k depends on: the ops its receivers were returned by, and every configuration step
+        applied before k to an original or to one of those objects"""
+        acc = set()
+
+        def go(j):
+            if j in acc:
+                return
+            acc.add(j)
+            for field in self.ops_txt[j].split(":")[1:3]:
+                for r in field.split(","):
+                    if r.startswith("$") and r[1:].isdigit():
+                        go(int(r[1:]))
+        go(k)
+        changed = True
+        while changed:
+            changed = False
+            for j in range(k):
+                if j not in acc and self.ops_txt[j].startswith("F:"):
+                    go(j); changed = True        # every configuration step before k (a likelihood writes through to its distribution)
+        return sorted(acc)
+
+    def history_check(self, k):
+        import copy as _cp
+        q = object.__new__(type(self))
+        q.__dict__.update({"cuqi": self.cuqi, "tr": self.tr, "rng": random.Random(0), "idx": self.idx, "pool": [], "ops_txt": [], "meta": {},
+                           "label_of": self.label_of})
+        q.w = _cp.copy(self.w)
+        q.w.live = _cp.deepcopy(self.w.pristine)
+        remap, res = {}, None
+        sub = self.deps(k)
+        for j in sub:
+            op = op_from_text(q, self.ops_txt[j], remap, j, self.ops_desc[j]["op"], self.ops_desc[j].get("kw"))
+            if op is None:
+                return None
+            res, _, _ = q.execute(op)
+            q.ops_txt.append(self.ops_txt[j])
+            if not isinstance(res, Exception) and op[0] in ("cond", "tolik", "apply", "mkjoint"):
+                q.pool.append((len(q.ops_txt) - 1, res))
+        if k in self.values:
+            a, b = self.values[k], _canon(res)
+            return None if a == b else (k, sub, {"value": (a, b)})
+        if isinstance(res, Exception):
+            return (k, sub, {"result": ("object", "exc:" + type(res).__name__)})
+        b = self.beh(res, *self.meta.get(k, (None, None)))
+        a = self.made0[k]
+        diff = {kk: (a.get(kk), b.get(kk)) for kk in set(a) | set(b) if a.get(kk) != b.get(kk)}
+        return (k, sub, diff) if diff else None
 
     def check_originals(self, k, full=False, behave=True):
         light = set(self.w.mp_args[0] + self.w.mp_args[1]) if (not full and not self.behave_every_op) else ()
@@ -1013,17 +1166,26 @@ class StepwiseProgram(Program):
         super().__init__(cuqi, tracer, rng, thorough, idx, length=length, script=script)
         if length is None:
             self.length = rng.randint(9, 15)
+        # the multi-argument callable factor, or the hierarchical data model with a forward model
+        self.focus = ("mp", "J2") if rng.random() < 0.5 else ("ym", "J3")
+
+    history_checks = 5
 
     def originals_subset(self):
         return ["mp", "J2"] + self.w.mp_args[0] + self.w.mp_args[1]
 
     def choose(self):
         cuqi, rng, w = self.cuqi, self.rng, self.w
-        roots = [("@%d" % w.addr["mp"], w.live[w.addr["mp"]])] * 2 + [("@%d" % w.addr["J2"], w.live[w.addr["J2"]])]
+        focus = self.focus
+        roots = [("@%d" % w.addr[focus[0]], w.live[w.addr[focus[0]]])] * 2 + [("@%d" % w.addr[focus[1]], w.live[w.addr[focus[1]]])]
         derived = [("$%d" % k, o) for k, o in self.pool]
-        if not any(letter(cuqi, o) == "L" for _, o in derived) and rng.random() < 0.12:
+        if sum(letter(cuqi, o) == "L" for _, o in derived) < 2 and rng.random() < 0.2:
             k = rng.randint(0, 1)
-            return ("tolik", roots[0][0], roots[0][1], w.vals["mp"][k], k + 1)
+            return ("tolik", roots[0][0], roots[0][1], w.vals[focus[0]][k], k + 1)
+        if rng.random() < 0.06:
+            r0, o0 = rng.choice(derived + roots[:1])
+            if letter(cuqi, o0) in ("d", "L"):
+                return ("fd", r0, o0, rng.choice([1, 2, 3, 0]))
         ref, o = rng.choice(derived * 2 + roots) if derived else rng.choice(roots)
         L = letter(cuqi, o)
         names = _try(lambda: list(o.get_parameter_names()))
@@ -1180,7 +1342,7 @@ CLASS_NAMES = {Program: None, StepwiseProgram: "stepwise", RejoinProgram: "rejoi
 
 
 # ============================================================================ shrinking (failing-input search)
-def op_from_text(p, txt, remap, old_index, kind=None):
+def op_from_text(p, txt, remap, old_index, kind=None, kwtxt=None):
     """rebuild an op of a recorded program on a fresh world (same seed => same objects)"""
     f = txt.split(":")
     def resolve(r):
@@ -1219,7 +1381,10 @@ def op_from_text(p, txt, remap, old_index, kind=None):
         kw, t = kwargs(f[2]); return ("logd", ref, o, kw, t)
     if f[0] == "g":
         names = _try(lambda: list(o.get_parameter_names()))
-        kw, t = p.kw_for(names, which=0) if not isinstance(names, Exception) else (None, None)
+        if kwtxt is not None:
+            kw, t = kwargs(kwtxt)
+        else:
+            kw, t = p.kw_for(names, which=0) if not isinstance(names, Exception) else (None, None)
         return (kind if kind in ("pdf", "cdf") else "grad", ref, o, kw, t) if kw else None
     if f[0] == "s":
         return (kind if kind in ("sample1", "samplerng") else "sample", ref, o)
@@ -1230,6 +1395,8 @@ def op_from_text(p, txt, remap, old_index, kind=None):
         dref, dobj = resolve(f[2]); return ("apply", ref, o, dref, dobj) if dobj is not None else None
     if f[0] == "G":
         return ("gibbs", ref, o, int(f[2]))
+    if f[0] == "F":
+        return ("fd", ref, o, int(f[2]))
     return None
 
 
@@ -1243,15 +1410,15 @@ def shrink(ctx, p, k, thorough, also=()):
                 if r.startswith("$") and r[1:].isdigit():
                     deps(int(r[1:]), acc)
         return acc
-    first = deps(k, set())
+    first = set(p.deps(k)) if hasattr(p, "deps") else deps(k, set())
     for j in also:
-        deps(j, first)
+        first |= set(p.deps(j)) if hasattr(p, "deps") else deps(j, set())
     for subset in (sorted(first), list(range(k + 1))):
         remap = {}
         rng = random.Random(f"C11-{ctx.seed}-{p.idx}")
         try:
             q = type(p)(p.cuqi, p.tr, rng, thorough, p.idx,
-                        script=[(lambda prog, j=j: op_from_text(prog, p.ops_txt[j], remap, j, p.ops_desc[j]["op"])) for j in subset])
+                        script=[(lambda prog, j=j: op_from_text(prog, p.ops_txt[j], remap, j, p.ops_desc[j]["op"], p.ops_desc[j].get("kw"))) for j in subset])
             q.run()
         except Exception:  # noqa
             p.tr.stop()
@@ -1266,8 +1433,8 @@ def parse_model(out):
     body, sib = out.rsplit("|", 1)
     recs = []
     for t in body.split(";"):
-        if t == "skip":
-            recs.append({"kind": "skip"}); continue
+        if t in ("skip", "cfg"):
+            recs.append({"kind": t}); continue
         f = t.split(":")
         if f[0] == "G":
             recs.append({"kind": "G", "names": [] if f[1] == "-" else [int(x) for x in f[1].split(".")], "n": int(f[2]),
@@ -1281,6 +1448,8 @@ def parse_model(out):
 def compare(m, i, opkind):
     """model record vs implementation record -> list of differences"""
     diffs = []
+    if m["kind"] == "cfg" or i["kind"] == "cfg":
+        return [] if (m["kind"] == i["kind"] or i["kind"] == "e") else ["configuration step misaligned"]
     if m["kind"] == "skip":
         return ["model could not resolve the receiver (an earlier op differs)"]
     if m["kind"] == "G" or i["kind"] == "G":
@@ -1290,8 +1459,9 @@ def compare(m, i, opkind):
             diffs.append(f"gibbs parameter names {m['names']} vs {i['names']}")
         if m["n"] != i["n"]:
             diffs.append(f"number of re-conditionings {m['n']} vs {i['n']}")
-        if m["esc"] != i["esc"]:
-            diffs.append(f"escaping writes {m['esc']} vs {i['esc']}")
+        mesc = [e for e in m["esc"] if not e.endswith("_constant[...]")]     # in-place ndarray writes: judged by the oracle
+        if mesc != i["esc"]:
+            diffs.append(f"escaping writes {mesc} vs {i['esc']}")
         return diffs
     m = dict(m)
     if "alloc" in m:
@@ -1327,7 +1497,7 @@ def compare(m, i, opkind):
 MODEL_BENIGN = {"g._variable_name", "d._mutable_vars", "n._mutable_vars", "r._mutable_vars", "P._mutable_vars", "M._mutable_vars",
                 "c._mean", "c.mean", "c._cov", "c.cov", "c._prec", "c._sqrtprec", "c._logdet", "c._rank", "inner._name",
                 "d._cov",                   # Gaussian.compute_cov() cache (content compared as a matrix by the snapshot)
-                "g._coefs", "g._coefs_inverse"}
+                "g._coefs", "g._coefs_inverse", "g._fun_shape"}
 
 
 def run_programs(ctx, cuqi, tracer, n, thorough, n_step=0, n_rejoin=0, n_dense=0, n_inter=0):
@@ -1412,10 +1582,13 @@ def judge(ctx, p, out, desc):
                  {"structure": sd, "behaviour": bd},
                  f"the object returned by op #{k} was altered by op #{kalt} ({aop}) on another object (sibling / intermediate aliasing)")
         okey = okey or okey2
-    for (k, km, sd, bd) in p.inplace_events:
-        predicted = k < len(recs) and any(e.endswith("_constant[...]") for e in recs[k].get("esc", []))
+    confirmed = []
+    for (k, km, sd, bd, last) in p.inplace_events:
+        # (random programs re-check a sample of the derived objects per op: the write happened after the last clean check)
+        predicted = any(any(e.endswith("_constant[...]") for e in recs[j].get("esc", [])) for j in range(last + 1, min(k, len(recs) - 1) + 1))
         if predicted:
-            kk = "alter-constant:ndarray-inplace:cond"
+            confirmed.append((k, km))
+            kk = "alter-constant:ndarray-inplace:" + p.ops_desc[k]["op"]
             ctx.disagree(kk, {**desc, "op_index": k}, "model (faithful): `ndarray += x` writes into the array shared with the density the copy was made from",
                          {"structure": sd}, "in-place `_constant +=` on an ndarray constant")
         else:
@@ -1433,6 +1606,28 @@ def judge(ctx, p, out, desc):
             ctx.c11_shrunk[kk] = shrink(ctx, p, k, ctx.tier == "thorough")
         ctx.fail(kk, {**desc, "shrunk": ctx.c11_shrunk.get(kk), "op": p.ops_desc[k]}, "conditioned copy == freshly constructed distribution with the same parameters",
                  detail, f"the copy of '{root}' returned by op #{k} does not behave like a fresh distribution (stale shared helper / array)")
+        okey = okey or kk
+    if getattr(p, "history_bad", None):
+        k, sub, diff = p.history_bad
+        kk = f"history:{p.ops_desc[k]['op']}:{p.impl[k]['kind'][0]}"
+        if any(km in sub for (ke, km) in confirmed):
+            kk = "alter-constant:ndarray-inplace:history"      # consequence of the known in-place `+=` on an object op k depends on
+        ctx.fail(kk, {**desc, "op_index": k, "op": p.ops_desc[k], "ops_it_depends_on": [p.ops_txt[j] for j in sub],
+                      "full_history": p.ops_txt[:k + 1]},
+                 "result of the op after the full history == result of the ops it depends on alone on untouched twins of the originals",
+                 diff, f"the result of op #{k} depends on intervening operations / evaluations of the objects it was derived from")
+        okey = okey or kk
+    if getattr(p, "retained_bad", None):
+        k = p.retained_bad[0]
+        kk = f"retained:{p.ops_desc[k]['op']}"
+        ctx.fail(kk, {**desc, "op_index": k, "op": p.ops_desc[k]}, "an array returned by an op is not modified by later ops", "bytes changed",
+                 "an output handed to the caller was overwritten by a later operation (internal buffer / view of a cache)")
+        okey = okey or kk
+    if getattr(p, "caller_bad", None):
+        k, names = p.caller_bad
+        kk = f"caller-array:{p.ops_desc[k]['op']}"
+        ctx.fail(kk, {**desc, "op_index": k, "op": p.ops_desc[k], "arrays": names}, "argument arrays owned by the caller are not modified", names,
+                 "an operation wrote into an array passed as argument")
         okey = okey or kk
     for (k, n0, n1) in p.name_bad[:1]:
         okey3 = f"name:{p.ops_desc[k]['op']}"
